@@ -268,6 +268,8 @@ def run_download(case, st):
             st.violation("C01:download:can-format", rc, "legal CAN frame", repr(bus.format_errors[0]))
         if srv.st is not None:
             st.violation(f"C01:download:unfinished:{case['api']}", rc, "transfer completed at the server", srv.st["kind"])
+        if simenv.W.timeouts:
+            st.violation(f"C01:download:client-timed-out:{case['api']}", rc, "no time-out in an undisturbed transfer", simenv.W.timeouts)
         st.outcome("dl ok nseg>0" if nseg else "dl ok expedited")
     st.sample({"case": case, "splits": len(splits)}, cap=4)
 
@@ -343,6 +345,8 @@ def run_upload(case, st):
                      bytes(got).hex())
     if srv.st is not None:
         st.violation(f"C01:upload:unfinished:{key}", case, "transfer completed at the server", srv.st["kind"])
+    if simenv.W.timeouts:
+        st.violation(f"C01:upload:client-timed-out:{key}", case, "no time-out in an undisturbed transfer", simenv.W.timeouts)
     if bus.format_errors:
         st.violation("C01:upload:can-format", case, "legal CAN frame", repr(bus.format_errors[0]))
     st.outcome("ul ok nseg>0" if nseg else "ul ok expedited")
